@@ -543,7 +543,21 @@ func execute(s *engine.Script, o *engine.Outcome) {
 	if after := snap.Of(sharedPtr.Interface()); after != before {
 		o.Violate("C18/read-only-calls-mutated-the-receiver/"+sharedPtr.Type().Elem().Name(), "shared %s changed in memory (to capacity) while only read-only calls ran: %s", vop.Struct, diff(before, after))
 	}
+	// Parsing is not one of the read-only operations the property lists; a run
+	// that parsed the bytes again is judged by the result and race oracles only
+	// (a parser may legitimately fill a package-level cache under a lock).
+	parsedAgain := false
+	for _, calls := range tasks {
+		for _, tc := range calls {
+			if tc.c.name == "@parse-again" {
+				parsedAgain = true
+			}
+		}
+	}
 	for i, n := range gnames {
+		if parsedAgain {
+			break
+		}
 		if a := snap.Of(globals[n]); a != gbefore[i] {
 			o.Violate("C18/read-only-calls-mutated-package-state/"+n, "package-level variable %s changed while only read-only calls ran: %s", n, diff(gbefore[i], a))
 		}
